@@ -11,7 +11,7 @@ def _ops_str(ops):
 
 class C13(Prop):
     id = 'C13'
-    lean_modules = ['RSocketModel.Props.C13', 'RSocketModel.Props.C13Endpoints', 'RSocketModel.Props.C13Source']
+    lean_modules = ['RSocketModel.Props.C13', 'RSocketModel.Props.C13Endpoints', 'RSocketModel.Props.C13Source', 'RSocketModel.Props.C12Source']
     technique = 'Lean 4 proof (induction over allocate/register/finish histories, parametric id width) + differential correspondence with StreamControl'
     level_text = ('c13_increment_matches_source / c13_initial_matches_source (Props/C13Source.lean): the id arithmetic of the model at 31 bits is proved equal to StreamControl._increment_stream_id and the initial id of StreamControl.__init__ as compiled from stream_control.py on every run; c13_client_ids_odd / c13_server_ids_even / c13_endpoints_never_collide (Props/C13Endpoints.lean) instantiate c13_history with the first stream ids read from RSocketClient / RSocketServer. c13_registered_during_sweep_stays_reserved (stop_all_streams with owners that open a new stream at once: every stream registered during the walk is still reserved afterwards, for every table, allocator position and set of retrying owners), c13_request_on_active_id_rejected (engine model: for every state, stream-opening frame type and handler behaviour, a request on an id that is still active yields exactly one ERROR[REJECTED] and changes nothing), Theorems c13_alloc_sound, c13_fails_iff_full, c13_history (all id widths k>=1, all active sets, all histories) are kernel-checked on a model '
                   'of StreamControl; the model is tied to the code by the regenerated constant (2^31-1) and by running the real StreamControl and the compiled '
